@@ -9,6 +9,25 @@ import (
 )
 
 func init() {
+	register("DBGU", "dump unused parameters", func(c *Ctx, r *Report) {
+		for _, fn := range c.W.SSAFuncs {
+			if fn.Blocks == nil || fn.Parent() != nil || fn.Synthetic != "" {
+				continue
+			}
+			for i, p := range fn.Params {
+				if fn.Signature.Recv() != nil && i == 0 {
+					continue
+				}
+				if p.Name() == "_" || p.Name() == "" {
+					continue
+				}
+				if p.Referrers() == nil || len(*p.Referrers()) == 0 {
+					fmt.Println("UNUSED", fnShort(fn), p.Name())
+				}
+			}
+		}
+		r.add("DBGU", "debug", "x", "x", nil, nil, "")
+	})
 	register("DBG", "debug", func(c *Ctx, r *Report) {
 		fn := os.Getenv("DBG_FN")
 		fi := c.W.fn(fn)
